@@ -82,7 +82,14 @@ fn summarize(store: &MemStore, key: &MasterKey, nm: &mut Namer, snap_tree: Optio
         None => (String::new(), vec![], false),
     };
     let h = store.handle(99);
-    let clean = matches!(scn::guard(|| scn::open(&h, key).and_then(|r| scn::check_clean(&r))), Outcome::Ok(true));
+    // the real check runs under the watchdog as well: a check that does not return is a "timeout" outcome of this run
+    let key2 = key.clone();
+    let checked = watchdog(60, move || scn::guard(|| scn::open(&h, &key2).and_then(|r| scn::check_clean(&r))));
+    let (clean, outcome) = match checked {
+        Ok(Outcome::Ok(c)) => (c, outcome),
+        Ok(_) => (false, outcome),
+        Err(()) => (false, "timeout"),
+    };
     RunResult { outcome: outcome.into(), tree, needs, orphans, readable, clean, packs: a.packs.len() }
 }
 
